@@ -208,8 +208,11 @@ func TestVerifC08Reach(t *testing.T) {
 	}
 	if vres.Thorough() {
 		cfgs = append(cfgs, [3]int{2, 1, 2}, [3]int{3, 2, 2})
-		depth = 5
-		pairs = append(pairs, []string{"ok", "abort"}, []string{"500", "500"}, []string{"ok", "ok", "500"})
+		depth = 4
+		if vrt.RaceBuild {
+			depth = 3
+		}
+		pairs = append(pairs, []string{"ok", "abort"}, []string{"500", "500"})
 	}
 	i := 0
 	for _, c := range cfgs {
